@@ -231,6 +231,27 @@ fn gen_case(seed: u64, i: usize, rng: &mut Rng) -> (String, Vec<String>) {
         vec!["rrdp".into(), "rrdp".into(), "rrdp".into(), "rrdp".into(), "rrdp".into(), "rrdp".into()],
         vec!["reposync a".into(), "rrdp".into(), "reposync b".into(), "rrdp".into(), "reposync c".into(), "rrdp".into()],
     ];
+    if i % 3 == 2 {
+        // command histories (history cache on, as in the daemon's default configuration) while
+        // the same CA is deleted and others are busy
+        ops.extend(["ca d".to_string(), "child ta d 9".into(), "pump".into(), "roa d +9:v4:9.0/24".into(), "pump".into()]);
+        let mut special: Vec<Vec<String>> = vec![
+            vec!["historyq d".into(), "historyq a".into(), "cadelete d".into(), "historyq d".into()],
+            vec!["historyq d".into(), "historyq d".into(), "historyq b".into(), "historyq d".into()],
+            vec!["historyq a".into(), "historyq c".into(), "historyq a".into()],
+        ];
+        let keep: Vec<usize> = vec![0, 2, 3, 9];
+        let mut rest: Vec<Vec<String>> = keep.iter().map(|k| pool[*k].clone()).collect();
+        let extra = rng.range(1, 3) as usize;
+        for _ in 0..extra {
+            let k = rng.below(rest.len() as u64) as usize;
+            special.push(rest.remove(k));
+        }
+        for (t, list) in special.into_iter().enumerate() {
+            for op in list { ops.push(format!("thread {t} :: {op}")); }
+        }
+        return (id, ops);
+    }
     let n = rng.range(3, 6) as usize;
     for t in 0..n {
         let k = rng.below(pool.len() as u64) as usize;
